@@ -62,6 +62,13 @@ func (b BoolOrStruct[T]) IsNil() bool {
 	return !b.isBool && isZero(b.structValue)
 }
 
+// IsZero reports whether nothing was configured. yaml.v3 consults it for
+// `omitempty`; without it a struct that only has unexported fields always counts
+// as empty, so the field was silently dropped whenever a config was marshaled to YAML.
+func (b BoolOrStruct[T]) IsZero() bool {
+	return b.IsNil()
+}
+
 // UnmarshalYAML implements yaml.Unmarshaler.
 func (b *BoolOrStruct[T]) UnmarshalYAML(node *yaml.Node) error {
 	// Handle null/nil explicitly
